@@ -28,7 +28,7 @@ ASSUMPTIONS = [
 ]
 COMPONENTS = {"real": ["reader", "compiler/macro expander", "VM opcodes and foreign primitives", "error/exception delivery", "stack growth", "collector", "ports"],
               "stub": ["source delivery schedule and corruption", "interrupt instant", "collection schedule", "slice lengths", "clock"]}
-BUDGET = {"quick": {"seconds": 70, "cases": 8000}, "thorough": {"seconds": 1500, "cases": 600000}}
+BUDGET = {"quick": {"seconds": 70, "cases": 8000, "min_cases": 300}, "thorough": {"seconds": 1500, "cases": 600000}}
 IMPORTS = ["(srfi 18)", "(chibi io)", "(scheme char)", "(scheme cxr)", "(scheme lazy)", "(scheme inexact)", "(scheme complex)", "(scheme read)", "(scheme write)",
            "(scheme eval)", "(only (chibi string) string-cursor-start string-cursor-end string-cursor-next string-cursor-prev string-cursor-ref string-cursor->index substring-cursor)"]
 CONFIGS = {
